@@ -415,8 +415,11 @@ def redis_part_c03(ck: Check, tier: str, rng) -> None:
     """C03 on the Redis broker (fake server): stop requests and *process death* at the loop steps where something
     happens; after a death other clients connect/disconnect (maintenance) before and after the execution timeout and a
     healthy consumer drains the queue: in-flight messages come back, not before their timeout, nothing stays in flight"""
-    chk = ["holder", "content", "stop", "reclaim"]
+    chk = ["holder", "content", "stop", "reclaim", "latency"]
     shapes = [
+        # a daily job between two iterations (period + stored time of the next run), interrupted in its second iteration: it is
+        # deliverable again, not put off by a day
+        [{"id": "a", "actor": "job", "script": ["ok"], "dur_ms": [400], "timeout_s": 3, "defer_by_ms": 86400000, "next_exec_ms": 300, "must_run": False}],
         [{"id": "a", "actor": "job", "script": ["ok"], "dur_ms": [400], "timeout_s": 3}],
         [{"id": "a", "actor": "job", "script": ["ok"], "dur_ms": [300], "timeout_s": 2, "at_ms": 900},
          {"id": "b", "actor": "job", "script": ["raise", "ok"], "dur_ms": [200], "retries": 1, "timeout_s": 2}],
@@ -428,7 +431,7 @@ def redis_part_c03(ck: Check, tier: str, rng) -> None:
     for jobs in shapes:
         for tl in (1, 2):
             scs.append(default_scenario(jobs=copy.deepcopy(jobs), actors={"job": {"policy": ["const", 0]}}, backend="redis", seed=rng.randint(0, 999),
-                                        worker={"tasks_limit": tl, "messages_limit": 0, "grace_s": 0.2}, horizon_ms=4000))
+                                        worker={"tasks_limit": tl, "messages_limit": 0, "grace_s": 0.2}, horizon_ms=4000, latency=True))
     with pool() as ex:
         base = list(ex.map(_record, [(sc, chk, []) for sc in scs], chunksize=1))
         inj = []
